@@ -141,13 +141,18 @@ impl<T> Outcome<T> {
 
 static HOOK_SET: AtomicBool = AtomicBool::new(false);
 
-/// Silence the default panic printer (library panics are observations here, not noise).
+thread_local! {
+    static GUARD_DEPTH: std::cell::Cell<u32> = const { std::cell::Cell::new(0) };
+}
+
+/// Silence the default panic printer for panics raised inside `guard` (library panics are
+/// observations here, not noise); anything else is a harness defect and is printed.
 pub fn silence_panics() {
     if !HOOK_SET.swap(true, AO::SeqCst) {
         std::panic::set_hook(Box::new(|info| {
-            // Harness bugs are tagged and still printed.
             let msg = panic_message_any(info.payload());
-            if msg.starts_with("harness:") {
+            let inside = GUARD_DEPTH.with(|d| d.get()) > 0;
+            if !inside || msg.starts_with("harness:") {
                 eprintln!("HARNESS PANIC: {} at {:?}", msg, info.location());
             }
         }));
@@ -164,9 +169,21 @@ fn panic_message_any(p: &(dyn std::any::Any + Send)) -> String {
     }
 }
 
+struct DepthGuard;
+impl Drop for DepthGuard {
+    fn drop(&mut self) {
+        GUARD_DEPTH.with(|d| d.set(d.get().saturating_sub(1)));
+    }
+}
+
 /// Run a library call; only the library call itself should be inside `f`.
 pub fn guard<T>(f: impl FnOnce() -> T) -> Outcome<T> {
-    match catch_unwind(AssertUnwindSafe(f)) {
+    GUARD_DEPTH.with(|d| d.set(d.get() + 1));
+    let r = {
+        let _g = DepthGuard;
+        catch_unwind(AssertUnwindSafe(f))
+    };
+    match r {
         Ok(v) => Outcome::Returned(v),
         Err(p) => {
             let m = panic_message_any(&*p);
